@@ -228,7 +228,8 @@ def gen_chunk(rng, size, counter):
 class C20(Prop):
     id = 'C20'
     level = 'exploration'
-    rule = ('one case = (max_bytes, backup_count, time_format on/off, '
+    rule = ('one case = (max_bytes, backup_count 1-5, in 15 % 9-101 with '
+            'every write rolling, time_format on/off, '
             'pre-existing active file and backups with gaps) + a sequence of '
             'writes (valid UTF-8 chunks of 1..max_bytes-1 bytes, a few >= '
             'max_bytes, with and without newlines, some multi-byte), close, '
@@ -257,6 +258,11 @@ class C20(Prop):
         mb = rng.choice([1, 2, 3, 5, 8, 16, 33, 64, 100, 257, 1000, 4096]) \
             if rot else 0
         bc = rng.choice([1, 1, 2, 3, 5]) if rot else 0
+        # deep retention: backup numbers with two digits, every write rolls
+        deep = rot and rng.random() < 0.15
+        if deep:
+            bc = rng.choice([9, 10, 11, 12, 13, 15, 21, 101])
+            mb = rng.choice([2, 3, 5, 8, 16])
         tf = rng.random() < 0.35
         pre = {}
         if rng.random() < 0.4:
@@ -268,18 +274,23 @@ class C20(Prop):
                     rng.choice(ALPHA) for _ in range(rng.randrange(0, n)))
             if rot:
                 for k in range(bc, 0, -1):
-                    if rng.random() < 0.6:
+                    if rng.random() < (0.9 if deep else 0.6):
                         pre[str(k)] = old(max(2, mb))
             if rng.random() < 0.7:
                 pre['active'] = old(max(2, mb if rot else 40))
         ops = []
         n = rng.choice([1, 2, 3, 5, 8, 15, 30])
+        if deep:
+            n = rng.choice([3, bc + 2, bc + 5, 2 * bc + 3])
+            n = min(n, 60)
         counter = 0
         for _ in range(n):
             x = rng.random()
             if x < 0.8:
                 counter += 1
-                if mb > 1 and rng.random() < 0.9:
+                if deep and rng.random() < 0.8:
+                    size = rng.choice([mb - 1, mb - 1, mb, max(1, mb // 2)])
+                elif mb > 1 and rng.random() < 0.9:
                     size = rng.choice([1, mb - 1, max(1, mb // 2),
                                        rng.randrange(1, mb)])
                 elif mb:
